@@ -562,16 +562,21 @@ def packLoop : Nat → Graph → List Nat → Option (Bool × Graph × List Nat)
     let g ← sortShortest (removeOrphans g)
     packLoop fuel g fresh
 
-/-- `Graph::pack_objects` for graphs without splittable / promotable (typed GPOS/GSUB lookup)
-objects, for which `try_splitting_subtables` and `try_promoting_subtables` return immediately. -/
-def packObjects (g : Graph) (fresh : List Nat) : Option (Bool × Graph × List Nat) := do
-  let (ok, g) ← basicSort g
-  if ok then some (true, g, fresh) else
+/-- `Graph::pack_objects` after `basic_sort` failed and after `try_splitting_subtables` /
+`try_promoting_subtables`: assign spaces, drop orphans, re-sort, then the isolation loop. -/
+def packTail (g : Graph) (fresh : List Nat) : Option (Bool × Graph × List Nat) := do
   let (_, g, fresh) ← assignSpaces g fresh
   let g ← sortShortest (removeOrphans g)
   let ov ← hasOverflows g
   if !ov then some (true, g, fresh) else
   packLoop (g.objects.length + 2) g fresh
+
+/-- `Graph::pack_objects` for graphs without splittable / promotable (typed GPOS/GSUB lookup)
+objects, for which `try_splitting_subtables` and `try_promoting_subtables` return immediately. -/
+def packObjects (g : Graph) (fresh : List Nat) : Option (Bool × Graph × List Nat) := do
+  let (ok, g) ← basicSort g
+  if ok then some (true, g, fresh) else
+  packTail g fresh
 
 /-! ## serialize -/
 
@@ -635,6 +640,255 @@ def dump (g : Graph) (fresh : List Nat) : Option (Option (List Nat)) :=
   | some (false, _, _) => some none
   | some (true, g, _) =>
     match serialize g with
+    | none => none
+    | some out => some (some out)
+
+/-! ## typed layer: extension promotion
+
+`TableData.type_` matters to the packer only in `try_splitting_subtables` / `try_promoting_subtables`
+(both run once, right after a failed `basic_sort`).  The typed layer is a side table `types` (absent =
+not a lookup); after promotion the packer continues on the plain `Graph` (`packTail`).
+Splitting (`graph/splitting*.rs`) is not modelled: the typed requests of the harness never carry the
+splittable types GPOS 2 / GPOS 4 (those are exercised on real tables only; internals are C16). -/
+
+/-- `TableType`, as far as `graph.rs` looks at it. -/
+inductive TType where
+  | other
+  | gpos (t : Nat)
+  | gsub (t : Nat)
+  deriving Repr, DecidableEq, Inhabited
+
+structure TGraph where
+  g : Graph
+  types : Map TType
+
+def TGraph.typeOf (tg : TGraph) (id : Nat) : TType := (tg.types.find? id).getD TType.other
+
+/-- `TableType::is_promotable` (`GPOS_EXT_TYPE = 9`, `GSUB_EXT_TYPE = 7`). -/
+def TType.isPromotable : TType → Bool
+  | .gpos t => t ≠ 9
+  | .gsub t => t ≠ 7
+  | .other => false
+
+/-- `to_lookup_type().map(to_raw)`. -/
+def TType.raw? : TType → Option Nat
+  | .gpos t => some t
+  | .gsub t => some t
+  | .other => none
+
+/-- `LookupType::promote`; `none` = "should never be promoting an extension subtable" / not a lookup. -/
+def TType.promote? : TType → Option TType
+  | .gpos t => if t = 9 then none else some (.gpos 9)
+  | .gsub t => if t = 7 then none else some (.gsub 7)
+  | .other => none
+
+/-- `make_extension`: `u16 format = 1`, `u16 lookup type`, then one 32-bit offset (placeholder `ff`). -/
+def makeExtension (rawType subtable : Nat) : Obj :=
+  ⟨8, [0, 1, rawType / 256 % 256, rawType % 256, 255, 255, 255, 255], [⟨4, 4, subtable, 0⟩]⟩
+
+/-- `BTreeMap::remove`. -/
+def Map.erase {α : Type} (m : Map α) (k : Nat) : Map α := m.filter (fun kv => kv.1 ≠ k)
+
+/-- `Graph::add_object` with the id drawn by the caller. -/
+def addObject (g : Graph) (id : Nat) (o : Obj) : Graph :=
+  { g with parentsInvalid := true
+           nodes := g.nodes.insert id (Node.new o.size)
+           objects := g.objects.insert id o }
+
+/-- one `for subtable_ref in &mut lookup.offsets` body of `actually_promote_subtables`. -/
+def promoteLink (raw : Nat) (acc : Option (List Link × Graph × List Nat)) (l : Link) :
+    Option (List Link × Graph × List Nat) :=
+  match acc with
+  | none => none
+  | some (ls, g, fresh) =>
+    match fresh with
+    | [] => none
+    | extId :: fresh => some (ls ++ [{ l with target := extId }], addObject g extId (makeExtension raw l.target), fresh)
+
+/-- `write_over(u16, 0)`; sizes-only objects (`bytes = []`, see `Obj.WF`) keep their empty bytes. -/
+def writeOverU16 (o : Obj) (v : Nat) : Option Obj :=
+  if o.size < 2 then none
+  else if o.bytes.length < 2 then some o
+  else some { o with bytes := [v / 256 % 256, v % 256] ++ o.bytes.drop 2 }
+
+/-- one `for id in to_promote` body of `actually_promote_subtables`; `none` = a panic (`unwrap`,
+`expect("validated before now")`, `promote` of an extension type, slice bounds in `write_over`) or
+the id supply exhausted. -/
+def promoteOne (tg : TGraph) (fresh : List Nat) (id : Nat) : Option (TGraph × List Nat) :=
+  match tg.g.objects.find? id with
+  | none => none
+  | some lookup =>
+    match (tg.typeOf id).raw? with
+    | none => none
+    | some raw =>
+      let g0 := { tg.g with objects := Map.erase tg.g.objects id }
+      match lookup.links.foldl (promoteLink raw) (some ([], g0, fresh)) with
+      | none => none
+      | some (links, g, fresh) =>
+        match (tg.typeOf id).promote? with
+        | none => none
+        | some pt =>
+          match pt.raw? with
+          | none => none
+          | some praw =>
+            match writeOverU16 { lookup with links := links } praw with
+            | none => none
+            | some lookup' =>
+              some ({ g := { g with objects := g.objects.insert id lookup' }
+                      types := tg.types.insert id pt }, fresh)
+
+/-- `Graph::actually_promote_subtables`. -/
+def actuallyPromote (tg : TGraph) (toPromote : List Nat) (fresh : List Nat) : Option (TGraph × List Nat) :=
+  match toPromote.foldl (fun (acc : Option (TGraph × List Nat)) id =>
+      match acc with
+      | none => none
+      | some (tg, fresh) => promoteOne tg fresh id) (some (tg, fresh)) with
+  | none => none
+  | some (tg, fresh) => some ({ tg with g := { tg.g with parentsInvalid := true } }, fresh)
+
+/-- `Graph::get_promotable_subtables`; outer `none` = a panic ("Promotable subtables exist with
+multiple parents" under debug assertions, `unwrap` of an empty parent set, a missing node). -/
+def getPromotable (tg : TGraph) : Option (Option (List Nat × Nat)) :=
+  let can : List Nat := Map.keys (tg.g.objects.filter (fun kv => (tg.typeOf kv.1).isPromotable))
+  if can.isEmpty then some none else
+  let parents : Option Set := can.foldl (fun (acc : Option Set) id =>
+      match acc with
+      | none => none
+      | some s =>
+        match tg.g.nodes.find? id with
+        | none => none
+        | some n => some (n.parents.foldl (fun s p => s.insert p.1) s)) (some [])
+  match parents with
+  | some [p] => some (some (can, p))
+  | _ => none
+
+/-! ### select_promotions_hb (with the `f64` sort key computed exactly) -/
+
+/-- `find_subgraph_size`: the breadth-first walk marks a node when it is *popped*, so a node queued
+twice before its first pop is counted twice. -/
+def subgraphSizeLoop (g : Graph) : Nat → List Nat → Set → Nat → Option Nat
+  | 0, _, _, _ => none
+  | fuel + 1, queue, visited, size =>
+    match queue with
+    | [] => some size
+    | next :: rest =>
+      let visited := visited.insert next
+      match g.objects.find? next with
+      | none => none
+      | some o =>
+        subgraphSizeLoop g fuel (rest ++ (o.links.filter (fun l => !visited.contains l.target)).map (·.target))
+          visited (size + o.size)
+
+def SUBGRAPH_SIZE_FUEL : Nat := 2000000
+
+/-- round-half-even `⌊n / 2^s⌉` -/
+def shiftRoundEven (n s : Nat) : Nat :=
+  let q := n / 2 ^ s
+  let r := n % 2 ^ s
+  if 2 * r > 2 ^ s ∨ (2 * r = 2 ^ s ∧ q % 2 = 1) then q + 1 else q
+
+/-- `((count as f64 / size as f64) * 1e9) as u64` with both IEEE-754 binary64 roundings
+(round-to-nearest-even) done exactly on integers and the saturating float-to-int cast
+(`+inf → u64::MAX`, `NaN → 0`).  `count, size < 2^53` so the conversions are exact. -/
+def promotionKey (count size : Nat) : Nat :=
+  if size = 0 then (if count = 0 then 0 else 18446744073709551615) else
+  if count = 0 then 0 else
+  -- quotient rounded to 53 significant bits: q1 * 2^(-k), 2^52 ≤ q1 ≤ 2^53
+  let k0 : Nat := 116                                     -- scale so that the integer quotient has > 53 bits
+  let num := count * 2 ^ k0
+  let qi := num / size
+  let sticky : Nat := if num % size = 0 then 0 else 1
+  -- fold the remainder into a sticky bit below the quotient so that one rounding step is exact
+  let q2 := 2 * qi + sticky                                -- value = q2 * 2^(-k0-1) (up to sticky)
+  let bits := Nat.log2 q2 + 1
+  let s1 := bits - 53
+  let q1 := shiftRoundEven q2 s1                           -- value ≈ q1 * 2^(s1 - k0 - 1)
+  -- product with 1e9, rounded to 53 significant bits
+  let p := q1 * 1000000000
+  let pbits := Nat.log2 p + 1
+  let s2 := pbits - 53
+  let p1 := shiftRoundEven p s2                            -- value ≈ p1 * 2^(s2 + s1 - k0 - 1)
+  let up := s2 + s1
+  let down := k0 + 1
+  let v := if up ≥ down then p1 * 2 ^ (up - down) else p1 / 2 ^ (down - up)
+  min v 18446744073709551615
+
+/-- `(id, subgraph_size, subtable_count)` -/
+abbrev LookupSize := Nat × Nat × Nat
+
+/-- the layer-size loop of `select_promotions_hb`; `none` = usize underflow (strict profile). -/
+def selectLoop (g : Graph) : List LookupSize → Bool → Nat → Nat → Nat → List Nat → Option (List Nat)
+  | [], _, _, _, _, acc => some acc
+  | (id, subgraphSize, count) :: rest, full, l23, l34, l4, acc =>
+    if full then selectLoop g rest true l23 l34 l4 (acc ++ [id]) else
+    match g.objects.find? id with
+    | none => none
+    | some lookup =>
+      let lookupSize := lookup.size
+      -- find_children_size: `self.objects.get(..).unwrap()` per link
+      match lookup.links.foldl (fun (acc : Option Nat) l =>
+          match acc, g.objects.find? l.target with
+          | some n, some o => some (n + o.size)
+          | _, _ => none) (some 0) with
+      | none => none
+      | some subtablesSize =>
+        if subgraphSize < lookupSize + subtablesSize then none else
+        let remaining := subgraphSize - lookupSize - subtablesSize
+        let l23 := l23 + lookupSize
+        let l34 := l34 + lookupSize + subtablesSize
+        if l34 < count * 8 then none else
+        let l34 := l34 - count * 8
+        let l4 := l4 + subtablesSize + remaining
+        if l23 < 65535 ∧ l34 < 65535 ∧ l4 < 65535 then selectLoop g rest false l23 l34 l4 acc
+        else selectLoop g rest true l23 l34 l4 (acc ++ [id])
+
+/-- `Graph::select_promotions_hb`. -/
+def selectPromotions (tg : TGraph) (candidates : List Nat) (parent : Nat) : Option (List Nat) := do
+  let sizes ← candidates.foldl (fun (acc : Option (List LookupSize)) id =>
+      match acc with
+      | none => none
+      | some ls =>
+        match subgraphSizeLoop tg.g SUBGRAPH_SIZE_FUEL [id] [] 0, tg.g.objects.find? id with
+        | some sz, some o => some (ls ++ [(id, sz, o.links.length)])
+        | _, _ => none) (some [])
+  -- `sort_by_key(Reverse(key))`: stable, larger keys first
+  let sorted := sizes.foldl (fun acc x =>
+      insertBy (fun (a b : LookupSize) => promotionKey a.2.2 a.2.1 > promotionKey b.2.2 b.2.1) x acc) []
+  let parentObj ← tg.g.objects.find? parent
+  let ext := sorted.foldl (fun n x => n + x.2.2 * 8) 0
+  selectLoop tg.g sorted false parentObj.size ext ext []
+
+/-- `Graph::try_promoting_subtables`, the selection being a parameter. -/
+def tryPromotingWith (sel : TGraph → List Nat → Nat → Option (List Nat)) (tg : TGraph) (fresh : List Nat) :
+    Option (TGraph × List Nat) :=
+  match getPromotable tg with
+  | none => none
+  | some none => some (tg, fresh)
+  | some (some (can, parent)) =>
+    match sel tg can parent with
+    | none => none
+    | some toPromote => actuallyPromote tg toPromote fresh
+
+/-- `Graph::pack_objects` on typed graphs without splittable subtables. -/
+def packObjectsWith (sel : TGraph → List Nat → Nat → Option (List Nat)) (tg : TGraph) (fresh : List Nat) :
+    Option (Bool × TGraph × List Nat) := do
+  let (ok, g) ← basicSort tg.g
+  if ok then some (true, { tg with g := g }, fresh) else
+  let (tg, fresh) ← tryPromotingWith sel { tg with g := g } fresh
+  let (ok, g, fresh) ← packTail tg.g fresh
+  some (ok, { tg with g := g }, fresh)
+
+def packObjectsT (tg : TGraph) (fresh : List Nat) : Option (Bool × TGraph × List Nat) :=
+  packObjectsWith selectPromotions tg fresh
+
+/-- `dump_table` after `make_graph`, typed. -/
+def dumpWith (sel : TGraph → List Nat → Nat → Option (List Nat)) (tg : TGraph) (fresh : List Nat) :
+    Option (Option (List Nat)) :=
+  match packObjectsWith sel tg fresh with
+  | none => none
+  | some (false, _, _) => some none
+  | some (true, tg, _) =>
+    match serialize tg.g with
     | none => none
     | some out => some (some out)
 
